@@ -286,7 +286,16 @@ func validationCode(att *expr.AttributeExpr, attCtx *AttributeContext, req, alia
 		tval = "*" + tval
 	}
 	if alias {
-		tval = fmt.Sprintf("%s(%s)", att.Type.Name(), tval)
+		// convert to the primitive type at the end of the alias chain
+		prim := att.Type
+		for i := 0; i < 32; i++ {
+			ut, ok := prim.(expr.UserType)
+			if !ok {
+				break
+			}
+			prim = ut.Attribute().Type
+		}
+		tval = fmt.Sprintf("%s(%s)", prim.Name(), tval)
 	}
 	data := map[string]any{
 		"attribute": att,
